@@ -32,20 +32,23 @@ impl PatternLike {
     /// pattern matching using the Like trait.
     pub(crate) fn into_pattern(self) -> crate::pattern::Pattern {
         if let syn::Expr::Lit(syn::ExprLit {
+            attrs,
             lit: syn::Lit::Str(lit_str),
-            ..
         }) = &self.expr
         {
-            // String literal - compile regex at macro expansion time
-            crate::pattern::Pattern::Regex(PatternRegex {
-                node_id: self.node_id,
-                pattern: lit_str.value(),
-                span: lit_str.span(),
-            })
-        } else {
-            // Expression - use Like trait at runtime
-            crate::pattern::Pattern::Like(self)
+            // A literal that carries attributes is kept whole as an expression, so that
+            // the attributes reach the compiler instead of being dropped here.
+            if attrs.is_empty() {
+                // String literal - compile regex at macro expansion time
+                return crate::pattern::Pattern::Regex(PatternRegex {
+                    node_id: self.node_id,
+                    pattern: lit_str.value(),
+                    span: lit_str.span(),
+                });
+            }
         }
+        // Expression - use Like trait at runtime
+        crate::pattern::Pattern::Like(self)
     }
 }
 
